@@ -47,6 +47,8 @@ MANIFEST = dict(
     technique=("Coq: two fuel-indexed interpreters over the same handler-program language, refutation by vm_compute witnesses; "
                "4-way differential run (2 extracted models, 2 real loops, real libglib via ctypes) with a classifier of the first divergence"))
 
+CASE_TIMEOUT = 4.0        # seconds of wall clock for one session on the GLib worker (a normal one takes milliseconds)
+MAX_HANGS = 4
 PROOFS = os.path.join(lib.VERIF, "coq/theories/proofs/C20Proofs.v")
 OUT = {0: "normal", 1: "ExitMainLoop", 2: "Exception", 3: "SystemExit", 4: "blocked", 5: "step-limit", 6: "timeout"}
 
@@ -91,11 +93,16 @@ class FourWay(object):
         self.cases, self.impl_m, self.impl_g = [], [], []
         self.dropped = dict(main_steps=0, both_diverge=0)
         self.suspect = []         # GLib implementation did not finish although MainLoop did: the model decides
+        self.hung = []            # GLib implementation exceeded the per-case wall budget (worker killed)
         for c in cases:
             i = run_main(c)
+            if len(self.hung) >= MAX_HANGS:
+                break                 # every hang costs the full budget: enough evidence, stop here
             g = worker.run(copy.deepcopy(c))
             if isinstance(g, dict):
                 raise lib.ModelError("GLib worker failed: %s" % g)
+            if 6 in g[0]:
+                self.hung.append((c, i))
             if 5 in i[0]:
                 self.dropped["main_steps"] += 1
                 continue
@@ -194,9 +201,10 @@ def run(chk, tier):
     t0 = time.time()
     rng = chk.rng
     W = witnesses_in_proofs(chk)
-    n = dict(quick=1500, thorough=12000)[tier]
+    n = dict(quick=5000, thorough=20000)[tier]
     stats = dict(corr_main=0, corr_glib=0, agree=0, differ=0, keys={})
-    with glib_impl.Worker(case_timeout=10.0) as worker:
+    mf_reported = False
+    with glib_impl.Worker(case_timeout=CASE_TIMEOUT) as worker:
         # ---- (iii) witnesses and scenarios
         ws = W.cases()
         fw = FourWay([w["case"] for w in ws], worker)
@@ -215,6 +223,21 @@ def run(chk, tier):
                 report_pair(chk, c, i, g, mm, mg, stats)
                 if len(chk.samples) < 2 and w["name"] in ("b", "d"):
                     chk.sample(dict(witness=w["key"], session=c, main=pretty(i[1]), glib=pretty(g[1])))
+        # F9(e): on its witness the real GLib loop behaves as the mark-after model, the mark-first variant differs
+        we = W.MARK_ORDER
+        fe = FourWay([we["case"]], worker)
+        chk.count()
+        if not (len(fe.cases) == 1 and fe.impl_g[0] == fe.model_g[0] and fe.impl_m[0] == fe.model_m[0]
+                and D.observable(fe.cases[0], fe.model_mf[0]) != D.observable(fe.cases[0], fe.model_g[0])
+                and D.observable(fe.cases[0], fe.impl_m[0]) != D.observable(fe.cases[0], fe.impl_g[0])):
+            chk.violation("witness-not-reproduced:glib-mark-after-handlers",
+                          "the witness of F9(e) (props/C20.v C20_refuted_mark_after_handlers) is not reproduced on the real GLibEventLoop",
+                          dict(kind="c20", case=we["case"]), found=False)
+        else:
+            chk.violation("glib-mark-after-handlers", "GLibEventLoop marks the waiting ticket after the handlers: %s" % D.KEYS["glib-mark-after-handlers"],
+                          dict(kind="c20", case=fe.cases[0], observable_glib=D.observable(fe.cases[0], fe.impl_g[0]),
+                               observable_mark_first_variant=D.observable(fe.cases[0], fe.model_mf[0])), found=True)
+            mf_reported = True
         sc = W.scenarios()
         fs = FourWay([s["case"] for s in sc], worker)
         for s, c, i, g, mm, mg in zip(sc, fs.cases, fs.impl_m, fs.impl_g, fs.model_m, fs.model_g):
@@ -232,6 +255,11 @@ def run(chk, tier):
         chk.extra["glib_worker"] = dict(spawned=worker.spawned, timeouts=worker.timeouts)
     for k, v in fw.dropped.items():
         chk.hist("discarded:%s" % k, v)
+    for c, i in fw.hung[:2]:
+        chk.violation("glib-hangs", "the real GLibEventLoop did not finish a session within %.0f s of wall clock (MainLoop: %s)%s"
+                      % (CASE_TIMEOUT, [OUT.get(o) for o in i[0]],
+                         "; the run was cut short after %d such sessions" % MAX_HANGS if len(fw.hung) >= MAX_HANGS else ""),
+                      dict(kind="c20", case=c), found=True)
     for c, i, g, m in fw.unfinished[:5]:
         chk.violation("glib-does-not-finish",
                       "the real GLibEventLoop does not finish a session (outcome %s) that MainLoop and the GLib model finish: MainLoop %s, model %s"
@@ -248,7 +276,7 @@ def run(chk, tier):
         report_pair(chk, c, i, g, mm, mg, stats)
         if 5 not in mf[0] and D.observable(c, mf) != D.observable(c, mg):
             mf_witness += 1
-            if mf_witness == 1:
+            if mf_witness == 1 and not mf_reported:
                 chk.violation("glib-mark-after-handlers", "marking the ticket before instead of after the handlers changes the observable of the GLib "
                               "model on this session (F9(e)): %s" % D.KEYS["glib-mark-after-handlers"],
                               dict(kind="c20", case=c, observable_mark_after=D.observable(c, mg), observable_mark_first=D.observable(c, mf)),
@@ -272,7 +300,7 @@ def replay(path):
         print("nothing to re-run for this replay (%s)" % d["replay"].get("kind"))
         return 1
     i = run_main(c)
-    with glib_impl.Worker(case_timeout=10.0) as w:
+    with glib_impl.Worker(case_timeout=CASE_TIMEOUT) as w:
         g = w.run(copy.deepcopy(c))
     c2 = [max(c[0], fuel_for(i, g)), c[1], c[2]]
     mm = lib.model_run("loop", [c2])[0]
